@@ -106,6 +106,10 @@ def run(ctx):
         if len(seen) >= 6:
             break
         rest = rest[:info["index"] - 1] + rest[info["index"]:]
+    pick = next((e for e in events if e["out"]["err"] == "none" and len(e["cfg"]["ifs"]) >= 2), None)
+    if pick is not None:
+        other = 1 if pick["out"]["iface"] != 1 else 2
+        vf.selftest_event(ctx, "IfaceTrace", dict(pick, out=dict(pick["out"], iface=other)), "the chosen interface of an accepted decision replaced by another one")
     for e in events[:3]:
         ctx.sample(e)
     # socket-level tier: source MAC / IP (and --srcip / --gwmac overrides) read off the frames of the real binary
